@@ -33,6 +33,15 @@ CLAIMS = {
          "faithful model, the literal specification and the library's answer on the same inputs (API level and the eight per-ranking counters).",
          "Trusted: Coq kernel + vm_compute; hand-written model and spec; harness; exact float sums on the 1/8000 grid. Missing lemma named in Props/C01.v.",
          "DESIGN.md section 4, C01"),
+ "C20": ("Coq invariant-by-induction over a Gallina model of the Markov moves of ranking.py + exhaustive per-move correspondence",
+         "Machine-checked: each of the six moves preserves the dense-bucket-numbering invariant (under the guards the code applies), "
+         "every complete walk keeps it with no absent element, every incomplete walk keeps it with the missing set equal to the -1 entries, "
+         "decoding a dense vector gives non-empty disjoint buckets over the present elements, complete generation always yields all n elements, "
+         "incomplete generation yields a valid partial ranking or nothing exactly when every element was removed; uniform permutations. "
+         "Unbounded n, steps and scripts. Tie to the code: the six name-mangled static methods on every dense vector of length <= 4/5 "
+         "(exhaustive), whole walks with scripted randint, Dataset-level wrappers judged in Coq.",
+         "Trusted: Coq kernel + vm_compute; hand-written model; harness (randint patched as a module attribute); numpy boolean-mask updates as modelled; n>=1, m>=1.",
+         "DESIGN.md section 4, C20"),
 }
 NOT_YET = "check not built yet in this phase (planned: DESIGN.md section 4); no claim is made"
 
